@@ -419,7 +419,11 @@ func drawMultiProgram(t *rapid.T) (string, []File, []string) {
 			tags["init-calls-import"] = true
 			name := prefix + "d2"
 			dep := pkgs[rapid.SampledFrom(p.imports).Draw(t, "initdep")]
-			fmt.Fprintf(&vars, "var %s %s = %s.%s(%s)\n", name, ty.name, dep.name, dep.fn, g.lit())
+			arg := g.lit()
+			if len(p.vars) > 0 {
+				arg = p.vars[0]
+			}
+			fmt.Fprintf(&vars, "var %s %s = %s.%s(%s)\n", name, ty.name, dep.name, dep.fn, arg)
 			p.vars = append(p.vars, name)
 		}
 
